@@ -27,6 +27,7 @@ TNext == /\ l <= Len(Log) /\ l' = l + 1 /\ nops' = nops
               [] e = "Send" -> Send(Ev.t, Ev.b)
               [] e = "Recv" -> Recv(Ev.t, Ev.b)
               [] e = "Exit" -> TExit(Ev.t)
+              [] e = "Respawn" -> (~alive[Ev.t] /\ alive' = [alive EXCEPT ![Ev.t] = TRUE] /\ UNCHANGED <<blk, cache, chan, raced>>)   \* a new thread under the same label
               [] OTHER -> FALSE
 TInit == Init /\ l = 1
 TSpec == TInit /\ [][TNext]_tvars
